@@ -77,13 +77,26 @@ fn case1<T: Elem>(case: u64, spline: bool, args: &Args, ev: &mut Ev, log: &mut E
         };
         (spec, lab)
     } else if spline {
+        // now and then every lane has the same kinds of end conditions (with its own values) ...
+        let same_kinds = case % 15 == 10 || case % 15 == 4;
         let o = SplineOpts {
             max_n: 12,
             max_lane_rank: 5,
             allow_zero_lanes: true,
+            force_pair: if same_kinds { Some((3 + rng.below(2), 3 + rng.below(2))) } else { None },
             ..Default::default()
         };
-        gen_spline_case::<T>(&mut rng, &o)
+        let (mut spec, lab) = gen_spline_case::<T>(&mut rng, &o);
+        // ... in a tiny unit, so that the lanes' values differ by less than any fixed epsilon
+        if same_kinds {
+            let s = T::pow2(-(56 + rng.below(8) as i32));
+            spec.data.mapv_inplace(|v| v * s);
+            if let Strat1::Spline { boundary, .. } = &mut spec.strat {
+                *boundary = boundary.scaled(s, s);
+            }
+            ev.add("tiny_unit_same_kind_cases", 1);
+        }
+        (spec, lab)
     } else {
         let o = LinearOpts {
             max_n: 12,
